@@ -31,7 +31,10 @@ def bracket(est_rate, denom, eta, level, n_impl, upper, seed, B=20000):
     u_hi = float(scipy.stats.beta.ppf(1 - 1e-9, k2, n_impl - k2 + 1))
     lo_level = max(0.0, u_lo - 6 * np.sqrt(max(u_lo * (1 - u_lo), 1.0 / B) / B))
     hi_level = min(1.0, u_hi + 6 * np.sqrt(max(u_hi * (1 - u_hi), 1.0 / B) / B))
-    out = (float(np.quantile(x, lo_level)) - 1e-9, float(np.quantile(x, hi_level)) + 1e-9)
+    # an extreme level cannot be estimated from B draws: fall back to the support of the distribution, [0, 1 - eta^denom]
+    lo = 0.0 if lo_level < 25.0 / B else float(np.quantile(x, lo_level))
+    hi = float(w.sum()) if hi_level > 1 - 25.0 / B else float(np.quantile(x, hi_level))
+    out = (lo - 1e-9, hi + 1e-9)
     _BR_CACHE[key] = out
     return out
 
